@@ -208,6 +208,12 @@ func (w *world) exec(op Op, nested bool) {
 		if !nested {
 			bus.Wait()
 		}
+	case "shutdown":
+		if !nested {
+			sctx, cancel := context.WithTimeout(ctx, 50*time.Millisecond)
+			bus.Shutdown(sctx)
+			cancel()
+		}
 	case "replay":
 		if w.store != nil {
 			defer w.enter(clsStoreR)()
